@@ -123,6 +123,9 @@ def run(ctx, model):
                                        "case": {"kind": "step", "request": s["req"][:1200], "id": i}})
     cov.bump("ids-judged-by-spec", sum(len(i) for _, i in meta))
     highlevel(ctx, model, cov)
+    # a live TupimageTerminal whose id_space / id_subspace is re-assigned behaves like one constructed with the new values
+    import c08_cli
+    c08_cli.reconfigure_equivalence(ctx, cov, ctx.pick(24, 120), must_change=["id_space", "id_subspace"])
     return cov
 
 
